@@ -2,10 +2,13 @@
 (* C14 -- dagutils.Diff / dagutils.ApplyChange on dag-pb directory trees.
 
    A tree is FLAT: a function from paths (sequences of link names, <<>> = the root) to the data id
-   of the node at that path, prefix-closed.  Data id 0 is "the directory data", 1..n are leaf
-   payloads.  A directory tree has d # 0 only at nodes without children, but the operators work
-   on arbitrary dag-pb trees (any node may have data AND links), which is what the real editor
-   edits: a Change never touches the data of the nodes it passes through.
+   of the node at that path, prefix-closed.  Every node -- a directory too, populated or not, the
+   root too -- carries its OWN data id (directory payloads with different metadata are different
+   ids), and two trees may differ in the data of a directory, in its entries, or in both.  The
+   operators work on arbitrary dag-pb trees (any node may have data AND links), which is what the
+   real editor edits: a Change never touches the data of the nodes it passes through.  Hence a
+   difference in a node's own data can only be reported as a Mod of that node as a whole; for
+   the root that is a Mod at the EMPTY path, whose meaning is "the result is After".
 
    dagutils.Diff is NOT re-specified.  The specification defines what a change list MEANS
    (Apply1: Add / Remove / Mod of the link at a path, the semantics of the editor) and requires of
@@ -22,30 +25,32 @@ VARIABLES src, tgt,   \* the two trees given to Diff
           cur,        \* src with the changes reported so far applied
           bad,        \* some reported change was not applicable (ApplyChange would fail)
           nch,        \* number of changes reported
+          rootch,     \* some reported change addresses the root itself (empty path)
           phase       \* "idle" | "diff"
-vars == <<src, tgt, cur, bad, nch, phase>>
+vars == <<src, tgt, cur, bad, nch, rootch, phase>>
 
 (* ---- meaning of one change (the editor: RmLink / InsertNodeAtPath) --------------------- *)
-Pre(T, c) == /\ c.p # <<>>
-             /\ CASE c.t = "Remove" -> c.p \in DOMAIN T
-                  [] c.t = "Mod"    -> c.p \in DOMAIN T /\ c.after # NoTree
-                  [] c.t = "Add"    -> Parent(c.p) \in DOMAIN T /\ c.after # NoTree
-                  [] OTHER          -> FALSE
-Apply1(T, c) == IF c.t = "Remove" THEN Prune(T, c.p) ELSE Graft(T, c.p, c.after)
+(* Remove / Add address a LINK, so they need a non-empty path.  Mod replaces the node at the path by
+   After; at the empty path that node is the root: the whole tree becomes After. *)
+Pre(T, c) == CASE c.t = "Remove" -> c.p # <<>> /\ c.p \in DOMAIN T
+               [] c.t = "Mod"    -> c.p \in DOMAIN T /\ c.after # NoTree
+               [] c.t = "Add"    -> c.p # <<>> /\ Parent(c.p) \in DOMAIN T /\ c.after # NoTree
+               [] OTHER          -> FALSE
+Apply1(T, c) == IF c.t = "Remove" THEN Prune(T, c.p) ELSE Graft(T, c.p, c.after)      \* Graft(T, <<>>, S) = S
 
 (* ---- state machine ---------------------------------------------------------------------- *)
-Init == src = NoTree /\ tgt = NoTree /\ cur = NoTree /\ bad = FALSE /\ nch = 0 /\ phase = "idle"
+Init == src = NoTree /\ tgt = NoTree /\ cur = NoTree /\ bad = FALSE /\ nch = 0 /\ rootch = FALSE /\ phase = "idle"
 
 Start(a, b) == /\ phase = "idle" /\ IsTree(a) /\ IsTree(b)
-               /\ src' = a /\ tgt' = b /\ cur' = a /\ bad' = FALSE /\ nch' = 0 /\ phase' = "diff"
+               /\ src' = a /\ tgt' = b /\ cur' = a /\ bad' = FALSE /\ nch' = 0 /\ rootch' = FALSE /\ phase' = "diff"
 
 Change(c) == /\ phase = "diff"
              /\ IF ~bad /\ Pre(cur, c) THEN cur' = Apply1(cur, c) /\ bad' = FALSE
                                        ELSE cur' = cur /\ bad' = TRUE
-             /\ nch' = nch + 1
+             /\ nch' = nch + 1 /\ rootch' = (rootch \/ c.p = <<>>)
              /\ UNCHANGED <<src, tgt, phase>>
 
-Finish == phase = "diff" /\ phase' = "idle" /\ UNCHANGED <<src, tgt, cur, bad, nch>>
+Finish == phase = "diff" /\ phase' = "idle" /\ UNCHANGED <<src, tgt, cur, bad, nch, rootch>>
 
 (* ---- the property, evaluated when the change list is complete ----------------------------- *)
 Reproduces   == ~bad /\ cur = tgt
@@ -69,12 +74,21 @@ DataIgnored          == /\ "Dev_C14_DataIgnored" \in Devs
                         /\ AsBuiltResult(src, tgt) # tgt
                         /\ ~bad /\ cur = AsBuiltResult(src, tgt)
 
+(* ---- Dev_C14_RootMod: what the code does instead ------------------------------------------
+   Diff(a, b) reports the (correct) change  Mod at the empty path, After = b  when the two ROOTS do
+   not carry the same data (or both have no links).  As built, ApplyChange cannot apply a change
+   at the empty path: RmLink("") looks for a link named "" in the root and the whole call fails
+   with ErrLinkNotFound.  The report itself satisfies the property; only its application fails. *)
+RootModUnapplied     == /\ "Dev_C14_RootMod" \in Devs
+                        /\ rootch /\ Reproduces /\ EmptyOnEqual
+RootModError         == "no link by that name"
+
 (* ---- a reference change set (phase M): shows the property is satisfiable with this change
    vocabulary, in ANY application order, and that AsBuiltResult is what the as-built descent rule
    produces ------------------------------------------------------------------------------------ *)
 RefChanges(a, b, Desc(_)) ==
        {[t |-> "Mod", p |-> p, after |-> Sub(b, p)] :
-            p \in {q \in DOMAIN a \cap DOMAIN b : q # <<>> /\ Desc(Parent(q)) /\ Sub(a, q) # Sub(b, q) /\ ~Desc(q)}}
+            p \in {q \in DOMAIN a \cap DOMAIN b : (q = <<>> \/ Desc(Parent(q))) /\ Sub(a, q) # Sub(b, q) /\ ~Desc(q)}}
   \cup {[t |-> "Remove", p |-> p, after |-> NoTree] :
             p \in {q \in DOMAIN a \ DOMAIN b : Desc(Parent(q)) /\ Parent(q) \in DOMAIN b}}
   \cup {[t |-> "Add", p |-> p, after |-> Sub(b, p)] :
